@@ -37,6 +37,8 @@ class Feat:
         self.regfam = 0.0
         self.deref = 0.0
         self.group_times = 0.0
+        self.hexh = 0.0            # immediates named in the Intel-style '<hex>h' spelling
+        self.zero_min = 0.0        # probability that a times value gets min 0
         self.excess_ops = 0.0      # operand items beyond the instruction's operand count
         self.any = 0.0             # the shipped @any macro as mnemonic / operand / deref value
         self.max_depth = 2
@@ -82,6 +84,10 @@ class RuleGen:
 
     def op_name(self, field: str) -> Optional[Any]:
         r = self.rng.random()
+        if self.feat.hexh and self.rng.random() < self.feat.hexh:
+            m = re.search(r"0x([0-9a-f]+)", field)
+            if m and m.group(1) not in ("a", "b", "c", "d"):
+                return m.group(1) + "h"
         if clean(field) and r < 0.5:
             name = field
         else:
@@ -256,6 +262,8 @@ class RuleGen:
             if node is None:
                 break
             out.append(node)
+        if len(out) >= 2 and rng.random() < 0.08:
+            out = out[rng.randint(1, len(out) - 1):]     # near miss: names that only occur in a LATER operand than written
         if out and len(out) == len(ops) and rng.random() < f.excess_ops:
             for _ in range(rng.randint(1, 2)):
                 out.append("@any" if rng.random() < f.any * 2 else self.decoy_operand())
@@ -288,6 +296,8 @@ class RuleGen:
 
     def times_value(self, r_avail: int):
         rng = self.rng
+        if rng.random() < self.feat.zero_min:
+            return {"min": 0, "max": rng.randint(1, max(1, r_avail) + 1)}
         form = rng.random()
         if form < 0.35:
             return rng.choice([r_avail, r_avail, max(0, r_avail - 1), r_avail + 1, 1, 2])
